@@ -34,7 +34,7 @@ def stmt_refs(st):
         return [st["tgt"]] + collect_refs([st["value"]]) + collect_refs([st["index"]])
     if k == "aug":
         return [st["tgt"]] + collect_refs([st["value"]])
-    if k in ("backward", "clear", "nullgrad", "del", "setshape"):
+    if k in ("backward", "clear", "nullgrad", "del", "setshape", "rawwrite"):
         r = [st["tgt"]]
         if k == "backward":
             r += collect_refs([st.get("seed")])
